@@ -129,6 +129,52 @@ def _iter_sentinel_loop(st: ast.stmt) -> Optional[List[ast.stmt]]:
     return [loop]
 
 
+def _structure_early_returns(body: List[ast.stmt]) -> Optional[List[ast.stmt]]:
+    """a statement list in which bare `return`s end `if` branches (`if c: A; return` followed by REST) rewritten without
+    returns: `if c: A` / `else: REST`.  None when a return sits anywhere else (in a loop, try, with) or carries a value."""
+    def ends_in_return(stmts: List[ast.stmt]) -> bool:
+        return bool(stmts) and isinstance(stmts[-1], ast.Return)
+
+    def rec(stmts: List[ast.stmt]) -> Optional[List[ast.stmt]]:
+        out: List[ast.stmt] = []
+        for i, st in enumerate(stmts):
+            if isinstance(st, ast.Return):
+                if st.value is not None and not (isinstance(st.value, ast.Constant) and st.value.value is None):
+                    return None
+                return out              # what follows is dead
+            if isinstance(st, ast.If) and any(isinstance(x, ast.Return) for x in ast.walk(st)):
+                body_ret, else_ret = ends_in_return(st.body), ends_in_return(st.orelse)
+                rest = stmts[i + 1:]
+                b = rec(list(st.body))
+                e = rec(list(st.orelse))
+                if b is None or e is None:
+                    return None
+                # the part of the function after the `if` belongs to the branches that did not return
+                r = rec(copy.deepcopy(rest)) if rest else []
+                if r is None:
+                    return None
+                # a branch that ended in return gets nothing appended; a branch that did not gets REST
+                nb = b if body_ret else b + copy.deepcopy(r)
+                ne = e if else_ret else e + copy.deepcopy(r)
+                if not body_ret and _has_return_inside(st.body):
+                    return None         # a nested early return inside a branch that also falls through: not handled
+                if not else_ret and _has_return_inside(st.orelse):
+                    return None
+                new_if = ast.copy_location(ast.If(st.test, nb or [ast.copy_location(ast.Pass(), st)], ne), st)
+                out.append(new_if)
+                return out
+            if any(isinstance(x, ast.Return) for x in ast.walk(st)) and not isinstance(st, (ast.FunctionDef, ast.AsyncFunctionDef, ast.ClassDef)):
+                return None
+            out.append(st)
+        return out
+
+    return rec(list(body))
+
+
+def _has_return_inside(stmts: List[ast.stmt]) -> bool:
+    return any(isinstance(x, ast.Return) for s_ in stmts for x in ast.walk(s_))
+
+
 def _local_callables(fn: ast.AST) -> Dict[str, ast.AST]:
     """locals of `fn` that are bound exactly once, to a nested def, a lambda, or (transitively) to another such local"""
     binds: Dict[str, List[ast.AST]] = {}
@@ -434,7 +480,13 @@ class Expander:
                 ret_expr = last.value
                 body = body[:-1]
             elif returns:
-                return None
+                # early bare returns that end `if` branches: restructured into if / else
+                if mode != "expr":
+                    return None
+                restructured = _structure_early_returns(copy.deepcopy(body))
+                if restructured is None or any(isinstance(x, ast.Return) for s_ in restructured for x in ast.walk(s_)):
+                    return None
+                body = restructured
             if mode == "assign" and ret_expr is None:
                 ret_expr = ast.Constant(None)
         assigned = _assigned_names(h)
